@@ -101,6 +101,10 @@ EXPLANATION += (
     ' Round 16: to_str serialises every top-level table the class consults (R-AGREE/serialised-tree-complete).'
 )
 
+EXPLANATION += (
+    ' Round 17: the deserialisers hand the constructor every table the class consults (R-AGREE/serialised-tree-complete).'
+)
+
 RULE_TEXT = (
     "one obligation per consumed record key, per dataset, per record key "
     "of the codec, per constant relation; non-trivial when the key / "
